@@ -231,6 +231,24 @@ func VerifC15AS(dir, mods, pm, kind, n int) {
 		litPad = true
 		ctrl = zzC15AppendNum(ctrl, mincol)
 		ctrl = append(ctrl, ',', ',', ',', '\'', pad)
+	case 4:
+		// v before # in one directive: # counts what is left after the v
+		// parameters took theirs (2 of the 4 arguments remain)
+		mincol = zzC15Small("mincol", 0, 12)
+		colinc = zzC15Small("colinc", 1, 4)
+		minpad = 2
+		ctrl = append(ctrl, "v,v,#"...)
+		pre = slip.List{slip.Fixnum(mincol), slip.Fixnum(colinc)}
+	case 5:
+		// # alone: both arguments remain
+		mincol = 2
+		ctrl = append(ctrl, '#')
+	case 6:
+		// # before v: all three arguments remain when # is read
+		mincol = 3
+		colinc = zzC15Small("colinc", 1, 4)
+		ctrl = append(ctrl, "#,v"...)
+		pre = slip.List{slip.Fixnum(colinc)}
 	}
 	if colon {
 		ctrl = append(ctrl, ':')
